@@ -105,6 +105,10 @@ CHECKS.update({
             "Generated server histories (publish, session rotation, serial jumps, delta pruning, lagging mirror views) x 23 peer fault kinds at notification, snapshot and delta exchanges x reachable local states; whenever repository() hands out an RRDP repository the archive must record the announced version (304: the last synced one) and equal that version's server snapshot exactly.",
             "Oracle per DESIGN appendix B; rsync disabled so that not-updated means no data handed out; HTTP transport simulated.",
             "deterministic simulation: server history + peer fault injection, snapshot-equality oracle", "§5 C25"),
+    "C23": ("A (world) in crash mode: kill points in the store, status file, TA store, cleanup and RRDP archive writes", "fault_enumeration",
+            "In generated worlds the third validation run is re-executed once per kill point from the same pre-run cache (store create/truncate/header/persist/reject/status/TA/cleanup steps and RRDP archive writes; all in thorough, a seeded sample in quick); the directory copy at the kill point is the crash image. Per distinct image: every stored point is absent, header-only or byte-for-byte its previous or new complete version; offline run succeeds; online run (one retry after a retryable failure allowed) gives the uninterrupted run's data set (for kills during cleanup: item-wise between this run's and the following run's result); store status readable.",
+            "Crash = process kill; buffered temp-file writes coincide; tearing inside one write call not modelled; worlds sampled, kill points of each explored run enumerated. Commands as subprocesses are covered under C32's engine only for the retry logic.",
+            "deterministic simulation: kill-point enumeration with crash images over the real Engine/Store", "§5 C23"),
     "C24": ("B (rrdp) in crash mode: kill points in archive writes, truncation and snapshot replacement", "fault_enumeration",
             "For a client synced to a generated server history, one snapshot or (multi-)delta update is re-executed once per kill point (every archive write/truncate and the remove/rename steps; all points in thorough, a seeded sample in quick); the cache directory copied at the kill point is the crash image; from each distinct image the client restarts and the server history continues, including 304 and mirror-lag views. Oracle of Engine B at every later update.",
             "Crash = process kill (page cache survives); tearing inside one write call and write reordering (power loss) are out of scope; histories are sampled, kill points of each explored update are enumerated.",
